@@ -20,9 +20,9 @@ func verifLower(tag string) string {
 // HarnessC14Action: RuleAction.checkAction on a symbolic interface (up to 3
 // inputs with symbolic names and required flags) and a symbolic call site (up
 // to 3 supplied keys).
-func HarnessC14Action() {
-	nd := verifChoose("declared", 4)
-	ns := verifChoose("supplied", 4)
+func HarnessC14Action(max int) {
+	nd := verifChoose("declared", max+1)
+	ns := verifChoose("supplied", max+1)
 	meta := &ActionMetadata{Name: "act", Inputs: ActionMetadataInputs{}}
 	dn := make([]string, nd)
 	req := make([]bool, nd)
@@ -44,6 +44,7 @@ func HarnessC14Action() {
 		exec.Inputs[sn[i]] = &Input{Name: &String{sn[i], false, &Pos{10 + i, 1}}, Value: &String{"v", false, &Pos{10 + i, 5}}}
 	}
 	rule := NewRuleAction(NewLocalActionsCache(nil, nil))
+	verifFreeze("action metadata", meta)
 	rule.checkAction(meta, exec, func(m *ActionMetadata) string { return "x" })
 	errs := rule.Errs()
 	verifReach("checked")
@@ -295,6 +296,8 @@ func HarnessC14WorkflowCall() {
 	doc := yDoc(yMap(s("on"), s("push"), s("jobs"), yMap(s("j"), yMap(job...))))
 	verifPlace(doc, 1, 0)
 	la := NewLocalActionsCache(nil, nil)
+	// the callee's interface is shared by every call of the run: checking a call must not write to it
+	verifFreeze("callee interface in the cache", cache.cache["./.github/workflows/callee.yml"])
 	errs := verifLintNode(doc, []Rule{NewRuleWorkflowCall("/r/.github/workflows/w.yml", cache), NewRuleExpression(la, cache)})
 	verifReach("checked")
 	nInputMissing, nSecretMissing := 0, 0
@@ -344,4 +347,63 @@ func HarnessC14WorkflowCall() {
 		}
 		verifCheck(nSecretMissing == verifIteInt(verifAnd(sreq, verifNot(secretSupplied)), 1, 0), "required-secret-report-differs")
 	}
+}
+
+// HarnessC14CallOutputs: needs.<job>.outputs.<X> for a job that calls a local
+// reusable workflow declaring 0, 1 or 2 outputs (symbolic letters): reported
+// iff X is not declared — also when nothing is declared.
+func HarnessC14CallOutputs() {
+	n := verifChoose("declared", 3)
+	X := verifLetter("ref")
+	outs := ReusableWorkflowMetadataOutputs{}
+	var names []string
+	for k := 0; k < n; k++ {
+		o := verifLower("out" + string(rune('0'+k)))
+		for _, p := range names {
+			verifAssume(o != p)
+		}
+		names = append(names, o)
+		outs[o] = &ReusableWorkflowMetadataOutput{Name: o}
+	}
+	proj := &Project{root: "/r"}
+	cache := NewLocalReusableWorkflowCache(proj, "/r", nil)
+	cache.cache["./.github/workflows/callee.yml"] = &ReusableWorkflowMetadata{
+		Inputs: ReusableWorkflowMetadataInputs{}, Secrets: ReusableWorkflowMetadataSecrets{}, Outputs: outs,
+	}
+	s := yScalar
+	ref := s("echo ${{ needs.j.outputs." + X + " }}")
+	doc := yDoc(yMap(s("on"), s("push"), s("jobs"), yMap(
+		s("j"), yMap(s("uses"), s("./.github/workflows/callee.yml")),
+		s("k"), verifC14Reader(ref),
+	)))
+	verifPlace(doc, 1, 0)
+	la := NewLocalActionsCache(nil, nil)
+	errs := verifLintNode(doc, []Rule{NewRuleWorkflowCall("/r/.github/workflows/w.yml", cache), NewRuleExpression(la, cache)})
+	got := verifUndefinedAt(errs, ref)
+	declared := false
+	for _, o := range names {
+		declared = verifOr(declared, verifFoldEq(X, o))
+	}
+	if got >= 1 {
+		verifReach("reported")
+		verifCheck(verifNot(declared), "declared-output-reported-as-undefined")
+	} else {
+		verifReach("accepted")
+		verifCheck(declared, "undeclared-output-accepted")
+	}
+}
+
+// verifC14Reader: a job that needs j and holds the reference in a step, in its outputs or in environment.url.
+func verifC14Reader(ref *yaml.Node) *yaml.Node {
+	s := yScalar
+	kv := []*yaml.Node{s("needs"), ySeq(s("j")), s("runs-on"), s("ubuntu-latest")}
+	switch verifChoose("where", 3) {
+	case 0:
+		kv = append(kv, s("steps"), ySeq(yMap(s("run"), ref)))
+	case 1:
+		kv = append(kv, s("steps"), ySeq(yMap(s("run"), s("echo"))), s("outputs"), yMap(s("o"), ref))
+	default:
+		kv = append(kv, s("steps"), ySeq(yMap(s("run"), s("echo"))), s("environment"), yMap(s("name"), s("e"), s("url"), ref))
+	}
+	return yMap(kv...)
 }
